@@ -92,6 +92,10 @@ type interp struct {
 	atomCache map[int32][]*Term
 	zlibWs    map[*value]*zlibW
 	zlibRs    map[*value]*zlibR
+	inVerifrt int
+	curInstr  ssa.Instruction
+	curPos    string
+	curFn     *ssa.Function
 }
 
 type methodKey struct {
@@ -313,6 +317,9 @@ func (in *interp) lookupMethod(typ types.Type, meth *types.Func) *ssa.Function {
 }
 
 func (in *interp) visitInstr(fr *frame, instr ssa.Instruction) bool {
+	if in.sched != nil {
+		in.curInstr, in.curFn = instr, fr.fn
+	}
 	switch instr := instr.(type) {
 	case *ssa.DebugRef:
 
@@ -728,6 +735,16 @@ func (in *interp) callSSA(caller *frame, callpos token.Pos, fn *ssa.Function, ar
 		panic(in.abort(abortUnwind, "call depth limit exceeded in "+fn.String()))
 	}
 	defer func() { in.depth-- }()
+	// inVerifrt describes the function that is executing (not its callers):
+	// the scheduler's own bookkeeping is exempt from race checking, code
+	// called from it (goroutine bodies) is not
+	savedV := in.inVerifrt
+	if fn.Pkg != nil && fn.Pkg.Pkg.Path() == verifrtPath {
+		in.inVerifrt = 1
+	} else {
+		in.inVerifrt = 0
+	}
+	defer func() { in.inVerifrt = savedV }()
 	if in.logging && fn.Pkg != nil {
 		in.covered[fn] = true
 	}
